@@ -111,7 +111,7 @@ class Rec:
             return
         self.counters['violations'] += 1
         if len(self.violations) < MAX_VIOLATIONS:
-            self.violations.append({'kind': kind, 'witness': w})
+            self.violations.append({'kind': kind, 'witness': w, 'hashseed': os.environ.get('PYTHONHASHSEED', '0')})
         if self.counters['violations'] >= 50:
             raise StopCheck()
 
@@ -192,7 +192,7 @@ def finalize(prop, tier, seed, level, m, wall_s, extra_inconclusive=()):
         os.makedirs(rdir, exist_ok=True)
         for v in m['violations'][:5]:
             body = {'property': prop, 'tier': tier, 'seed': seed, 'shard': v.get('shard', 0),
-                    'kind': v['kind'], 'witness': v['witness']}
+                    'kind': v['kind'], 'witness': v['witness'], 'hashseed': v.get('hashseed', '0')}
             path = os.path.join(rdir, '%s-%s.json' % (prop, h64(json.dumps(body, sort_keys=True))))
             with open(path, 'w') as f:
                 json.dump(body, f, indent=1, sort_keys=True)
